@@ -22,7 +22,8 @@ EXTENDS Introspect
 
 Fail(s, why, off) == [ok |-> FALSE, s |-> s, why |-> why, off |-> off, offs |-> {off}]
 
-IsFault(d) == d.kind \in {"SYNTAX", "READFAULT"}
+\* (CLOSEFAULT: the document is delivered through ParseFS from a file whose Close fails after all of it was read)
+IsFault(d) == d.kind \in {"SYNTAX", "READFAULT", "CLOSEFAULT"}
 NewDefs(doc) == SelectSeq(doc, LAMBDA d : ~d.ext /\ d.kind # "SCHEMA" /\ ~IsFault(d))
 ExtDefs(doc) == SelectSeq(doc, LAMBDA d : d.ext)
 SchemaDefs(doc) == SelectSeq(doc, LAMBDA d : ~d.ext /\ d.kind = "SCHEMA")
